@@ -185,11 +185,12 @@ public:
     }
 
     base_array<T> operator[](const std::vector<int>& idxs) const {
-        const size_t max_i = *std::max_element(idxs.begin(), idxs.end());
-        DSPLIB_ASSERT(max_i < _vec.size(), "index must not exceed the size of the vector");
+        const int n = int(_vec.size());
         std::vector<T> res(idxs.size());
         for (size_t i = 0; i < idxs.size(); ++i) {
-            res[i] = _vec[idxs[i]];
+            const int k = idxs[i];
+            DSPLIB_ASSERT((k >= 0) && (k < n), "index must not exceed the size of the vector");
+            res[i] = _vec[k];
         }
         return res;
     }
